@@ -14,10 +14,36 @@ Inductive router := RProvider | RLegacy.
    SMin = only the three grant storages (no CanSetUserinfoFromRequest);
    SKeep = the interfaces of SStd, but a failing call has done its work before it reports the
            failure: its results (and side effects) come back together with the error.  The
-           handlers must not look at them, so the programs are those of SStd. *)
-Inductive storage := SStd | SMax | SMin | SKeep.
+           handlers must not look at them, so the programs are those of SStd.
+   SNil, SZero = the interfaces of SStd, the failing call has no effect, but WHAT it returns besides the
+           error differs: SNil - every interface-typed result is a typed nil pointer of the storage's
+           concrete type (`var req *AuthRequest; ...; return req, err`: `result == nil` is false on the
+           interface and any method call on it dereferences nil); SZero - every interface / pointer /
+           slice / map result is a non-nil, empty object (`req := &AuthRequest{}; err := scan(req); return
+           req, err`).  Again the programs are those of SStd.
+   SFull = SKeep, and the failing call has written EVERY field of its out-parameter, also the fields the
+           framework sets itself after a successful call (a storage that restores a cached document with
+           `*resp = cached` and fails afterwards: IntrospectionResponse.Active = true, token_type, exp, iss ...;
+           UserInfo sub / name / email whatever the scopes).  The programs are those of SStd. *)
+Inductive storage := SStd | SMax | SMin | SKeep | SNil | SZero | SFull.
 Definition is_max (sv : storage) : bool := match sv with SMax => true | _ => false end.
 Definition is_min (sv : storage) : bool := match sv with SMin => true | _ => false end.
+
+(* the two dimensions of a storage variant: which optional interfaces the type assertions find ... *)
+Inductive ifaces := IStd | IMax | IMin.
+Definition ifaces_of (sv : storage) : ifaces :=
+  match sv with SMax => IMax | SMin => IMin | SStd | SKeep | SNil | SZero | SFull => IStd end.
+(* ... and what a failing call hands back besides the error *)
+Inductive results := RNothing       (* untyped nil / zero values *)
+                   | RTypedNil      (* typed nil pointers inside the interface-typed results *)
+                   | REmpty         (* non-nil empty objects *)
+                   | RComplete      (* the results (and side effects) of the successful call *)
+                   | RFull.         (* RComplete + every field of an out-parameter, also the framework's own *)
+Definition results_of (sv : storage) : results :=
+  match sv with SKeep => RComplete | SFull => RFull | SNil => RTypedNil | SZero => REmpty | SStd | SMax | SMin => RNothing end.
+(* the variant with the same interfaces that returns nothing with an error *)
+Definition plain_storage (sv : storage) : storage :=
+  match ifaces_of sv with IStd => SStd | IMax => SMax | IMin => SMin end.
 
 (* the registrations of opfix.StdClients *)
 Inductive client := Web | Web2 | Native | Spa | Pkjwt.
